@@ -465,7 +465,12 @@ class Loops:
                 d = z3.And(*(delta(s) + [mem]))
                 cs = created(s)
                 disj.append(z3.Exists(cs, d) if cs else d)
-            oldt = ex.to_term(ft, Ref(hid), ("set", et)) if (old.sv is not None or old.items) else z3.K(m.sort(et), False)
+            if old.sv is not None:
+                oldt = old.sv.term
+            else:
+                oldt = z3.K(m.sort(et), False)
+                for it in old.items or ():
+                    oldt = z3.Store(oldt, ex.to_term(ft, it, et), True)
             added = z3.Exists([k], z3.Or(*disj) if len(disj) > 1 else disj[0]) if disj else z3.BoolVal(False)
             new = SV(z3.Lambda([x], z3.Or(z3.Select(oldt, x), added)), ("set", et))
             ft.heap[hid] = SetObj(sv=new, frozen=old.frozen)
@@ -542,6 +547,17 @@ class Loops:
     def havoc(self, st, fr, spec: LoopSpec):
         ex = self.ex
         for nm, ty in spec.modifies.items():
+            if "." in nm:
+                base, attr = nm.split(".", 1)
+                oref = ex.lookup(st, fr, base)
+                o = st.heap[oref.id]
+                curv = o.get(attr)
+                if isinstance(ty, tuple) and ty[0] in ("list", "set") and isinstance(curv, Ref):
+                    fv = ex.fresh(st, "hv_" + attr, ty)
+                    st.heap[curv.id] = ListObj(sv=fv) if ty[0] == "list" else SetObj(sv=fv)
+                else:
+                    st.heap[oref.id] = o.set(attr, ex.fresh(st, "hv_" + attr, ty))
+                continue
             cur = ex.lookup(st, fr, nm) if self._has(st, fr, nm) else None
             if isinstance(ty, tuple) and ty[0] in ("list", "set"):
                 fv = ex.fresh(st, "hv_" + nm, ty)
